@@ -495,6 +495,19 @@ theorem C11_order_in_place (fs : FSI) (rec : Path → LoadRes) (cp dir : Path) (
     | «include» g' => have := hpre (.include g') (by simp); simp [isInclude] at this
     | _ => simp [loadEntriesWith, ih']
 
+/-- **C11_order (3'), in-memory file system (after fix F26).**  No path returned by `FakeFileSystem::glob` has a component that
+starts with `.` at a position where the (canonicalized) pattern's component starts with a wildcard. -/
+theorem C11_dotfile_fake (o : GlobOpts) (t : Tree) (pat : String) (ps : List Path) (ts : List Tok)
+    (hfrag : tokenize (pathStr (canonFake (parsePath pat))).toList = .ok ts) (h : fakeGlob o t pat = .ok ps) :
+    ∀ p ∈ ps, wildcardMatchedDotFile (parsePath (pathStr (canonFake (parsePath pat)))) p = false := by
+  intro p hp
+  simp only [fakeGlob, hfrag] at h
+  cases h
+  simp only [List.mem_map, List.mem_filter] at hp
+  obtain ⟨kv, ⟨_, hk⟩, rfl⟩ := hp
+  simp only [Bool.and_eq_true, Bool.not_eq_true'] at hk
+  exact hk.2
+
 /-- a pattern (component) that can match a leading dot: after any number of `*`, its next token is a literal dot. -/
 def dotOpen (o : GlobOpts) : List Tok → Bool
   | .star :: ts => dotOpen o ts
